@@ -152,3 +152,37 @@ pub fn c17_twin(plan: &Plan, out: &RunOut) -> Option<Violation> {
     }
     None
 }
+
+/// C16, misuse half: the same plan without the misuse calls (a call that polls as a side effect
+/// is replaced by a plain poll at that instant). Everything observable must be identical.
+pub fn c16_twin(plan: &Plan, out: &RunOut) -> Option<Violation> {
+    if !matches!(plan.mode, Mode::Net) || plan.api.is_empty() {
+        return None;
+    }
+    let mut t = plan.clone();
+    t.api = plan
+        .api
+        .iter()
+        .filter_map(|a| match a.call {
+            Api::AdvanceMissingInput => Some(ApiCall { node: a.node, at_us: a.at_us, call: Api::Poll }),
+            Api::AddInputWrongHandle { .. } | Api::NetStats { .. } | Api::DisconnectMisuse { .. } | Api::SetDelayMisuse { .. } => None,
+            _ => Some(a.clone()),
+        })
+        .collect();
+    t.scenario = format!("{}-twin-without-misuse", plan.scenario);
+    let tout = run_plan(&t).ok()?;
+    if let Some(x) = tout.violations.first() {
+        return Some(v(&format!("c16.twin:{}", x.class), format!("the twin run without misuse calls violates {}: {}", x.class, x.text), x.node, x.frame));
+    }
+    for i in 0..out.nodes.len() {
+        let (a, b) = (&out.nodes[i], &tout.nodes[i]);
+        if a.req_trace != b.req_trace || a.final_frame != b.final_frame {
+            let f = (0..a.hist.len().min(b.hist.len())).find(|&f| a.hist[f] != b.hist[f]);
+            return Some(v("c16.misuse_changed_behaviour", format!("node {i}: request lists differ from the run without the misuse calls (final frames {} / {}, first differing state at frame {f:?})", a.final_frame, b.final_frame), i, f.map(|x| x as i32).unwrap_or(-1)));
+        }
+        if a.events != b.events {
+            return Some(v("c16.misuse_changed_behaviour", format!("node {i}: events differ from the run without the misuse calls"), i, a.final_frame));
+        }
+    }
+    None
+}
